@@ -22,7 +22,11 @@ type flusher interface {
 }
 
 func (f FlushComponent) Render(ctx context.Context, w io.Writer) (err error) {
-	if err = GetChildren(ctx).Render(ctx, w); err != nil {
+	// Take the children out of the shared context, so that they are not
+	// passed on to components rendered inside or after this one.
+	children := GetChildren(ctx)
+	ctx = ClearChildren(ctx)
+	if err = children.Render(ctx, w); err != nil {
 		return err
 	}
 	switch w := w.(type) {
